@@ -4,6 +4,7 @@ import HqModel.Props.WorkerSide
 import HqModel.Lemmas.CoreSteps
 import HqModel.Lemmas.CoreMsgWitness
 import HqModel.Lemmas.CoreMsgLoss
+import HqModel.Lemmas.CoreMsgStart
 /-!
 # C06 — one live execution per task; instance ids strictly increase
 
@@ -41,18 +42,23 @@ example : ∃ s', (State.lostRetracting
 worker a task was being retracted from); `Core.starts cbs` = the `(task id, instance id)` pairs of the `started`
 callbacks. `Core.NoIdReuse ops` = no task id is submitted (`newTasks`) twice in `ops` — decidable, a fact about the
 client of the core (HyperQueue attaches fresh ids, `C02.c02_submit_ids`); it cannot be dropped (`c06_reuse_witness`).
-No other side condition is needed: the theorems hold for ALL runs of the model, whatever the workers report.
+`c06_sends_nondecreasing`, `c06_sent_le_current`, `c06_inst_never_decreases` need no other side condition: they hold
+for ALL runs of the model, whatever the workers report. `c06_send_after_start` additionally assumes the side
+conditions `OpOk2` of the global invariant `InvF` on the run that made the announcement (since the fix of F32: see
+there).
 
 What is true and what is not:
 * the instance ids sent for one task NEVER DECREASE (`c06_sends_nondecreasing`) and never exceed the task's current
   one (`c06_sent_le_current`);
 * they do NOT strictly increase: a task that a worker gave back WITHOUT starting it — successful retract
-  (`on_retract_response`), `task_reject` — is sent again with the SAME instance id (`c06_equal_resend_witness`: two
-  concrete runs satisfying every side condition). The server increments the instance id only when a task comes back
+  (`on_retract_response`), `task_reject` (since the fix of F32 also of a multi-node task by its root:
+  `c06_mn_reject_witness`) — is sent again with the SAME instance id (`c06_equal_resend_witness`: concrete runs
+  satisfying every side condition). The server increments the instance id only when a task comes back
   from a LOST worker (`lostPrefilled`, `lostAssigned`, the multi-node root arm, `lostRetracting`);
-* once the server has announced a start of instance `i` (`started` callback: the task is Running /
-  RunningMultiNode), every LATER send of that task carries a strictly larger instance id
-  (`c06_send_after_start`) — so an instance id is re-sent only while the server has not heard that it started;
+* once the server has announced a start of instance `i` (`started` callback: the task is Running, or
+  RunningMultiNode with the `started` flag of its root set), every LATER send of that task carries a strictly larger
+  instance id (`c06_send_after_start`) — so an instance id is re-sent only while the server has not heard that it
+  started; `c06_started_stays` says what the task is as long as its instance id is the announced one;
 * finding (`c06_started_unsent_witness`): the instance id announced by `started` need not be one that was ever sent. -/
 
 /-- **The instance id of a task in the map never decreases** along any run in which the id is not submitted again
@@ -80,17 +86,41 @@ theorem c06_sent_le_current (ops : List Op) (s : State) (out : Out) (hr : Core.N
 
 /-- **After an announced start every later send is strictly larger**: if the server announced `started` for
 instance `i` of a task during the operations `pre`, then every compute message for that task emitted by a LATER
-operation carries an instance id `> i`. -/
+operation carries an instance id `> i`.
+
+Side condition `hok` (added with the fix of F32): the operations that led to the announcement satisfy `OpOk2` — the
+input conditions under which the global invariant `InvF` is proved (fresh worker records, Reject protocol for
+Assigned tasks, `QueueOkD` / `SolMnOk` before a round); the driver evaluates them on every real operation
+(`core.hyp`). Why it is needed now: the fixed `task_reject` takes a RunningMultiNode task back to Waiting WITHOUT
+incrementing the instance id when its root has not started it; that a Reject cannot do this AFTER the start was
+announced is decided by the `is_started` flag of the ROOT'S WORKER RECORD, so the statement is no longer a fact about
+task records alone (`Core.TRel`) but needs the coupling of the root's record with the task — part of `InvF`
+(`TW3.t3`). Before the fix the Reject of a RunningMultiNode task was a panic (no later operation), which is why no
+side condition was needed. The last operation `op` itself needs none. -/
 theorem c06_send_after_start (pre : List Op) (op : Op) (s s' : State) (out out' : Out)
+    (hok : Core.RunOk Core.OpOk2 {} pre)
     (hr : Core.NoIdReuse pre) (hrun : Core.run {} pre = .ok (s, out)) (hstep : Core.step s op = .ok (s', out'))
     (q p : TaskId × Nat) (hq : q ∈ Core.starts out.cbs) (hp : p ∈ Core.sends out'.msgs) (hpq : p.1 = q.1) :
     q.2 < p.2 := by
-  have hh := Core.Hist.of_run hr hrun
-  obtain ⟨_, tr, _⟩ := Core.step_fx hh.nd hstep
-  obtain ⟨t, ht, hid, hle, hlk, _⟩ := tr.lo p hp
-  rcases hh.st q hq t ht (hid.trans hpq) with h | ⟨h1, h2⟩
+  have hn := (Core.run_invF hok hrun).inv.nd
+  obtain ⟨_, _, lk, _⟩ := Core.step_fx hn hstep
+  obtain ⟨t, ht, hid, hle, hlk⟩ := lk p hp
+  rcases Core.run_stK hok hr hrun q hq t ht (hid.trans hpq) with h | ⟨h1, w, hw⟩
   · exact Nat.lt_of_lt_of_le h hle
-  · exact h1 ▸ hlk h2
+  · exact h1 ▸ hlk (Core.locked_of_hot hn ht hw)
+
+/-- **What an announced start means for the task afterwards**: after every run (side conditions as above), a task for
+which `started` was announced with instance `i` and that is still in the map has a larger instance id, or it has
+instance `i` and is Running, or RunningMultiNode with the `started` flag of its root's worker record set — the two
+states in which `task_reject` does not give the task back (Running: `unreachable!()`; started multi-node: ignored). -/
+theorem c06_started_stays (ops : List Op) (s : State) (out : Out)
+    (hok : Core.RunOk Core.OpOk2 {} ops) (hr : Core.NoIdReuse ops) (hrun : Core.run {} ops = .ok (s, out))
+    (q : TaskId × Nat) (hq : q ∈ Core.starts out.cbs) (t : Task) (ht : s.task? q.1 = some t) :
+    q.2 < t.inst ∨ (q.2 = t.inst ∧
+      ((∃ w v, t.state = .running w v) ∨
+       ∃ root others wk r, t.state = .runningMN (root :: others) ∧ s.worker? root = some wk ∧
+         wk.assign = .mn q.1 r true)) :=
+  Core.run_started_locked hok hr hrun q hq t ht
 
 /-- **Every task that comes back from a lost worker gets a strictly larger instance id** — all of
 `on_remove_worker` at once, in every reachable state (side conditions `OpOk2` on the run that reached it): a task
@@ -135,6 +165,28 @@ theorem c06_equal_resend_witness :
   obtain ⟨s', out', h1', h2', _⟩ := Core.runSends_some b3
   exact ⟨⟨a1, a2, s, out, h1, h2⟩, ⟨b1, b2, s', out', h1', h2'⟩⟩
 
+/-- **The give-back path added by the fix of F32**: `Core.mnRejectOps` — a multi-node task is placed on worker 1
+(sent with instance 0), its root refuses it before starting it (`task_reject`: workers reset, task back to `Waiting 0`,
+instance id NOT incremented: the worker states that it has not started the task), the next round places it on worker 2:
+sent again with instance 0. `Core.mnRejectStartedOps` — the root first reports Running (`started (1,0)` instance 0
+announced): the Rejects that follow (from the root and from another worker) are ignored, the task stays
+RunningMultiNode on worker 1 with instance 0 and is not sent again (`c06_send_after_start`). All side conditions
+(`OpOk4`, no id submitted twice) hold in both runs. -/
+theorem c06_mn_reject_witness :
+    (Core.RunOk Core.OpOk4 {} Core.mnRejectOps ∧ Core.NoIdReuse Core.mnRejectOps ∧ ∃ s out,
+      Core.run {} Core.mnRejectOps = .ok (s, out) ∧ Core.sends out.msgs = [((1, 0), 0), ((1, 0), 0)] ∧
+      Core.starts out.cbs = []) ∧
+    (Core.RunOk Core.OpOk4 {} Core.mnRejectStartedOps ∧ Core.NoIdReuse Core.mnRejectStartedOps ∧ ∃ s out,
+      Core.run {} Core.mnRejectStartedOps = .ok (s, out) ∧ Core.sends out.msgs = [((1, 0), 0)] ∧
+      Core.starts out.cbs = [((1, 0), 0)] ∧ s.tasks.map (fun t => (t.id, t.state, t.inst)) = [((1, 0), .runningMN [1], 0)]) := by
+  obtain ⟨a1, a2, a3, _⟩ := Core.mnRejectOps_ok
+  obtain ⟨b1, b2, b3, b4⟩ := Core.mnRejectStartedOps_ok
+  obtain ⟨s, out, h1, h2, h3⟩ := Core.runSends_some a3
+  obtain ⟨s', out', h1', h2', h3'⟩ := Core.runSends_some b3
+  refine ⟨⟨a1, a2, s, out, h1, h2, h3⟩, ⟨b1, b2, s', out', h1', h2', h3', ?_⟩⟩
+  rw [h1'] at b4
+  simpa only [Except.toOption, Option.map_some, Option.some.injEq] using b4
+
 /-- **`NoIdReuse` cannot be dropped**: the core accepts a task id again after the first record left the map; the
 second submission may carry a smaller instance id, and the sends of that id decrease (5, then 0). -/
 theorem c06_reuse_witness :
@@ -163,10 +215,10 @@ theorem c06_started_unsent_witness :
   simp at hi
   exact hi
 
-/-- non-vacuity of the hypotheses of `c06_sends_nondecreasing` / `c06_send_after_start`: a run with a dependency,
-a start and two sends -/
-example : Core.NoIdReuse Core.depOps ∧
+/-- non-vacuity of the hypotheses of `c06_sends_nondecreasing` / `c06_send_after_start` / `c06_started_stays`: a run
+with a dependency, a start and two sends -/
+example : Core.RunOk Core.OpOk2 {} Core.depOps ∧ Core.NoIdReuse Core.depOps ∧
     Core.runSends Core.depOps = some ([((1, 0), 0), ((1, 1), 0)], [((1, 0), 0)]) :=
-  ⟨Core.depOps_ok.2.1, Core.depOps_ok.2.2⟩
+  ⟨Core.RunOk.mono (fun _ _ h => h.1.ok2) _ _ Core.depOps_ok.1, Core.depOps_ok.2.1, Core.depOps_ok.2.2⟩
 
 end HqModel.C06
